@@ -47,6 +47,7 @@ IMPORTANT - {nprev} previous rounds already produced the following changes for t
 CLOSING = {
     "sixth": """This is the sixth round. Earlier rounds used: every obvious site, registries / caches / shared buffers, derived classes, positional arguments, one-shot iterators, second instances, thread races, state left by error paths, int-like and non-integral numbers, `+=`, frames changed in place, listeners that raise or unsubscribe themselves, close() of a sequence part-way, counters that wrap, whole-message reads, reports during a connection handshake. Look for what is still left, for example: (1) the generator / coroutine protocol itself (throw() into a sequence, a sequence re-used after StopIteration, `yield from` of sub-sequences, awaiting the same coroutine result twice, gather / wait_for / shield / TaskGroup around the library's coroutines); (2) Python object protocol corners the property's observable depends on (copy / deepcopy / pickle of frames, commands, addresses and responses followed by use; hash / eq consistency when used as dict keys or set members and then re-read; bool(), len(), iteration, comparison and ordering; str / repr / format with width specifiers; int-like via __index__; keyword-only versus positional; default mutable arguments); (3) what depends on ORDER OF IMPORT or of class definition (a module imported earlier or later, a subclass defined between two calls, reload); (4) gateway behaviours the protocol allows but no test produces (reports arriving in one read or split at an odd byte, duplicated or re-ordered reports, answers at the very edge of a time window, two outcome reports in one loop iteration, a reconnect while a sequence sleeps); (5) numeric and boundary corners not yet used (the largest and smallest legal value of EVERY field, not only the first; zero-length and maximum-length strings; values equal to a sentinel such as MASK, 0xFE, 0x7F, None-vs-0; signed / unsigned mix; byte order on the rarely used 3- and 4-byte paths); (6) option combinations (every pair of keyword options of one call). Changes must still be plausible maintenance edits, keep all 110 tests passing, and need something specific to manifest.""",
     "seventh": """This is the seventh round. Earlier rounds used (do not repeat): registries / caches / shared buffers, derived classes, positional arguments, one-shot iterators, second instances, thread races, state left by error paths, int-like and non-integral numbers, `+=`, frames changed in place, misbehaving listeners, close() of a sequence part-way, wrapping counters, whole-message reads, handshake-time reports, copy / pickle hooks (`__reduce__`), identity-versus-equality of strings, instance attributes shadowing class flags, order of import, enum `_missing_` hooks and enum containment, attributes memoised through the MRO, falsy slice steps, `__radd__`, unguarded `__repr__`, `bytes(int)`, flag objects accepted as values, the caller's own list consumed, hidden sortedness preconditions, hex-constant slips, errors swallowed through a new exception subclass, `%d` applied to objects, `range()` off-by-one on a selector, status-only reports, sequence numbers of configuration packets, device-id nibbles, signed 64-bit fields, callable-keyed registries, stale local aliases across a reconnect, swapped finally order, timeouts borrowed from another class, waiting on an event before every pop, `is False`, pushed-back lines, stale status reports. Look for what is still left, for example: (1) arithmetic and encoding on the rarely used paths (3- and 4-byte values, scale factors and exponents, sign extension, byte order of the middle byte, rounding versus truncation, `//` versus `>>` on negative numbers); (2) defaults and optional parameters (None versus omitted, a default computed once at import, keyword-only arguments silently ignored, `**kwargs` passed on or not); (3) resource accounting that leaks one unit per RARE event so that only the N-th occurrence fails (semaphore slots, sequence numbers, queue entries, registered callbacks, open connections); (4) the textual forms the property compares (`__str__` of commands, addresses, events: separators, hex versus decimal, names of flags); (5) class attribute versus instance attribute, multiple inheritance / MRO order, a `super()` call that skips a level, `__init_subclass__` ordering; (6) asymmetric equality (`a == b` versus `b == a` with subclasses, NotImplemented, comparisons with None or plain ints), `__hash__` lost by defining `__eq__`; (7) iteration order (dict / set order, sorted versus insertion order, reversed) where the property's observable depends on it; (8) clocks and timeouts (`loop.time()` versus `time.monotonic()`, timeouts that accumulate or are not reset across retries, zero and None timeouts, `reconnect_interval=0`, `reconnect_limit` hit exactly); (9) operating-system edge behaviour the drivers rely on (os.write writing fewer bytes than asked, BlockingIOError / InterruptedError on write, a read returning fewer bytes than a whole report, glob returning several paths or an unsorted list, connect() or disconnect() called twice, close() of a closed file); (10) two features that meet only in one command class (send-twice AND answer expected AND device type; 24-bit AND send-twice AND instance addressing). Changes must still be plausible maintenance edits, keep all 110 tests passing, and need something specific to manifest.""",
+    "eighth": """This is the eighth round. Earlier rounds used (do not repeat): everything listed for the earlier rounds plus - repeated losses under a reconnect limit, counters never reset because an overriding method skips super(), unconfirmed frames written twice, busy loops on BlockingIOError, in-flight slots leaked by a transient write error, handshake write errors handled synchronously, error reports missing from a lookup table, reports with a stale sequence number dropped, device-type memory not cleared by 24-bit frames, deadlines inherited by the next pending command, answer deadlines taken before the confirmation, command locks narrowed to the write, flushes skipped inside transactions. Look for what is still left, for example: (1) the FIRST and the LAST of something (first command after connect, first after reconnect, the command during which the limit is reached, the 256th sequence number, the last byte of a buffer); (2) two independent driver INSTANCES or two event loops in one process (class-level state, module-level state, loop captured at construction time); (3) ordering between a callback and the state it reports (status reported before the state is updated, `connected` set before the handshake finished, traffic reported before the response is returned); (4) cleanup on the success path that differs from the failure path (a `finally` that runs too early with `return` inside `try`, a `break` that skips a release, `else` on loops); (5) exceptions of a type nobody expected (a `KeyboardInterrupt`-like BaseException, `GeneratorExit`, `asyncio.CancelledError` swallowed by `except Exception` in 3.7-style code, `StopIteration` inside a generator turning into RuntimeError); (6) numeric parameters at the gateway level (priority values, repeat counts, inter-frame times, frame length fields for 24-bit versus 16-bit, byte order of multi-byte fields in reports); (7) what the gateway reports for commands of OTHER masters interleaved with own commands (quirks, echoes, collisions, bus power failure reports). Changes must still be plausible maintenance edits, keep all 110 tests passing, and need something specific to manifest.""",
 }
 
 
@@ -66,7 +67,7 @@ def main():
             if m.get("property") == pid:
                 earlier.append("- " + " ".join(str(m.get("summary", "")).split())[:260])
         wt = f"/tmp/wt/{pid}{suffix}"
-        nprev = {"sixth": "five", "seventh": "six"}.get(word, "several")
+        nprev = {"sixth": "five", "seventh": "six", "eighth": "seven"}.get(word, "several")
         txt = HEAD.format(wt=wt, id=pid, title=p["title"], statement=p["statement"], quant=p["quantifier"]["text"],
                           why=p["why_tests_cant"], files=", ".join(p["anchors"]["files"]), nprev=nprev,
                           earlier="\n".join(earlier), closing=CLOSING[word])
